@@ -28,9 +28,10 @@ VARIABLES l,        \* number of events consumed
           dbase,    \* dangling index entries that predate the running command (damage scenarios)
           loading,  \* the state of a forked scenario is being re-emitted (no formula applies yet)
           grace,    \* snapshots written through a handle whose index predates a prune: only Recoverable until the next prune (C10)
+          must,     \* snapshots that were readable when the scenario said `remember` (C08: must be readable again after repair-index)
           lastEnd,  \* <<command, result>> of the command that ended last, <<>> once anything else happened
           viol      \* nonconformances of the last step
-vars == <<l, sc, packs, idx, snaps, marks, cmds, ao, now, excused, base, dbase, loading, grace, lastEnd, viol>>
+vars == <<l, sc, packs, idx, snaps, marks, cmds, ao, now, excused, base, dbase, loading, grace, must, lastEnd, viol>>
 
 P == INSTANCE RepoProps
 
@@ -41,7 +42,7 @@ Empty == [x \in {} |-> {}]
 SkewTolerance == 2   \* seconds: logical times are floor()s of real clock readings
 
 Init == /\ l = 0 /\ sc = "" /\ packs = Empty /\ idx = Empty /\ snaps = Empty
-        /\ marks = Empty /\ cmds = Empty /\ ao = FALSE /\ now = 0 /\ excused = FALSE /\ base = {} /\ dbase = {} /\ loading = FALSE /\ grace = {} /\ lastEnd = <<>> /\ viol = {}
+        /\ marks = Empty /\ cmds = Empty /\ ao = FALSE /\ now = 0 /\ excused = FALSE /\ base = {} /\ dbase = {} /\ loading = FALSE /\ grace = {} /\ must = {} /\ lastEnd = <<>> /\ viol = {}
 
 Ev == Rec[l + 1]
 Consume == l < Len(Rec) /\ l' = l + 1
@@ -51,7 +52,7 @@ Reset ==
   /\ sc' = Ev.id
   /\ packs' = Empty /\ idx' = Empty /\ snaps' = Empty /\ marks' = Empty /\ cmds' = Empty
   /\ ao' = (IF "append_only" \in DOMAIN Ev.cfg THEN Ev.cfg.append_only ELSE FALSE)
-  /\ now' = 0 /\ excused' = FALSE /\ base' = {} /\ dbase' = {} /\ loading' = ("fork_of" \in DOMAIN Ev) /\ grace' = {} /\ viol' = {}
+  /\ now' = 0 /\ excused' = FALSE /\ base' = {} /\ dbase' = {} /\ loading' = ("fork_of" \in DOMAIN Ev) /\ grace' = {} /\ must' = {} /\ viol' = {}
 
 Begin ==
   /\ Ev.e = "begin"
@@ -66,7 +67,7 @@ Begin ==
   /\ excused' = (excused \/ (("instant" \in DOMAIN Ev /\ Ev.instant) /\ ("early" \in DOMAIN Ev /\ Ev.early)))
   /\ viol' = {}
   /\ base' = P!Unreadable /\ dbase' = P!Dangling
-  /\ UNCHANGED <<sc, packs, idx, snaps, marks, ao, loading, grace>>
+  /\ UNCHANGED <<sc, packs, idx, snaps, marks, ao, loading, grace, must>>
 
 Known(p) == p \in DOMAIN cmds
 Bump(p, f) == IF Known(p) THEN [cmds EXCEPT ![p][f] = @ + 1] ELSE cmds
@@ -81,13 +82,12 @@ End ==
   /\ viol' = (IF Known(Ev.proc) /\ Ev.res = "ok" /\ cmds[Ev.proc].nfail > 0
                 THEN {<<"FailReported", cmds[Ev.proc].cmd>>} ELSE {})
              \cup (IF Ev.res = "panic" THEN {<<"Panic", Ev.msg>>} ELSE {})
-             \cup (IF Known(Ev.proc) /\ ao /\ Ev.res # "ok" /\ cmds[Ev.proc].nmut > 0 /\ cmds[Ev.proc].nfail = 0
-                     /\ cmds[Ev.proc].cmd \in {"forget", "prune", "repair_index", "repair_snapshots", "rewrite", "config"}
-                   THEN {<<"RefusedEarly", cmds[Ev.proc].cmd>>} ELSE {})
+             \cup (IF Known(Ev.proc) /\ "ao_refused" \in DOMAIN Ev /\ Ev.ao_refused /\ cmds[Ev.proc].nmut > 0
+                   THEN {<<"RefusedEarly", cmds[Ev.proc].cmd, cmds[Ev.proc].nmut>>} ELSE {})
   /\ cmds' = IF Known(Ev.proc) THEN Drop(cmds, Ev.proc) ELSE cmds
   /\ lastEnd' = IF Known(Ev.proc) THEN <<cmds[Ev.proc].cmd, Ev.res>> ELSE <<>>
   /\ grace' = IF Known(Ev.proc) /\ cmds[Ev.proc].cmd = "prune" /\ Ev.res = "ok" THEN {} ELSE grace
-  /\ UNCHANGED <<sc, packs, idx, snaps, marks, ao, now, excused, base, dbase, loading>>
+  /\ UNCHANGED <<sc, packs, idx, snaps, marks, ao, now, excused, base, dbase, loading, must>>
 
 BlobSet(seq) == Range(seq)
 
@@ -98,7 +98,7 @@ WPack ==
              \cup (IF ~Ev.sd THEN {<<"PackSelfDescribing", Ev.p>>} ELSE {})
              \cup (IF Ev.ow THEN {<<"Overwrite", "pack", Ev.p>>} ELSE {})
   /\ cmds' = Bump(Ev.proc, "nmut")
-  /\ UNCHANGED <<sc, idx, snaps, marks, ao, now, excused, base, dbase, loading, grace>>
+  /\ UNCHANGED <<sc, idx, snaps, marks, ao, now, excused, base, dbase, loading, grace, must>>
 
 EntryOf(x) == [p |-> x.p, blobs |-> BlobSet(x.blobs), mark |-> x.mark, t |-> x.t]
 
@@ -120,7 +120,7 @@ WIdx ==
              \cup (IF ~Ev.decoded THEN {<<"IndexUndecodable", Ev.i>>} ELSE {})
              \cup (IF Ev.ow THEN {<<"Overwrite", "index", Ev.i>>} ELSE {})
   /\ cmds' = Bump(Ev.proc, "nmut")
-  /\ UNCHANGED <<sc, packs, snaps, ao, now, excused, base, dbase, loading, grace>>
+  /\ UNCHANGED <<sc, packs, snaps, ao, now, excused, base, dbase, loading, grace, must>>
 
 WSnap ==
   /\ Ev.e = "wsnap"
@@ -130,14 +130,14 @@ WSnap ==
              \cup (IF Ev.ow THEN {<<"Overwrite", "snapshot", Ev.s>>} ELSE {})
   /\ cmds' = Bump(Ev.proc, "nmut")
   /\ grace' = IF Known(Ev.proc) /\ cmds[Ev.proc].stale THEN grace \cup {Ev.s} ELSE grace
-  /\ UNCHANGED <<sc, packs, idx, marks, ao, now, excused, base, dbase, loading>>
+  /\ UNCHANGED <<sc, packs, idx, marks, ao, now, excused, base, dbase, loading, must>>
 
 WOther ==
   /\ Ev.e = "wother"
   /\ viol' = MutViol(Ev.proc, Ev.tpe)
   /\ ao' = ao   \* the append-only flag follows `cfg` events, not raw config writes
   /\ cmds' = Bump(Ev.proc, "nmut")
-  /\ UNCHANGED <<sc, packs, idx, snaps, marks, now, excused, base, dbase, loading, grace>>
+  /\ UNCHANGED <<sc, packs, idx, snaps, marks, now, excused, base, dbase, loading, grace, must>>
 
 \* removal of pack p by a non-instant prune: p must carry a deletion mark older than keep-delete
 KeepDeleteViol(pr, p) ==
@@ -158,7 +158,7 @@ Rm ==
              \cup (IF ao /\ Ev.tpe \in {"pack", "index", "snapshot"} THEN {<<"AppendOnly", Ev.tpe, Ev.id>>} ELSE {})
              \cup (IF Ev.tpe = "pack" THEN KeepDeleteViol(Ev.proc, Ev.id) ELSE {})
   /\ cmds' = Bump(Ev.proc, "nmut")
-  /\ UNCHANGED <<sc, ao, now, excused, base, dbase, loading, grace>>
+  /\ UNCHANGED <<sc, ao, now, excused, base, dbase, loading, grace, must>>
 
 \* a file removed behind the library's back (scenario construction, not a library step)
 Damage ==
@@ -168,32 +168,38 @@ Damage ==
   /\ snaps' = IF Ev.tpe = "snapshot" /\ Ev.id \in DOMAIN snaps THEN Drop(snaps, Ev.id) ELSE snaps
   /\ viol' = {}
   /\ base' = (P!Unreadable)' /\ dbase' = (P!Dangling)'
-  /\ UNCHANGED <<sc, marks, cmds, ao, now, excused, loading, grace>>
+  /\ UNCHANGED <<sc, marks, cmds, ao, now, excused, loading, grace, must>>
+
+Remember ==
+  /\ Ev.e = "remember"
+  /\ must' = DOMAIN snaps \ P!Unreadable
+  /\ viol' = {}
+  /\ UNCHANGED <<sc, packs, idx, snaps, marks, cmds, ao, now, excused, base, dbase, loading, grace>>
 
 Baseline ==
   /\ Ev.e = "baseline"
   /\ loading' = FALSE
   /\ base' = P!Unreadable /\ dbase' = P!Dangling
   /\ viol' = {}
-  /\ UNCHANGED <<sc, packs, idx, snaps, marks, cmds, ao, now, excused, grace>>
+  /\ UNCHANGED <<sc, packs, idx, snaps, marks, cmds, ao, now, excused, grace, must>>
 
 Fail ==
   /\ Ev.e = "fail"
   /\ cmds' = Bump(Ev.proc, "nfail")
   /\ viol' = {}
-  /\ UNCHANGED <<sc, packs, idx, snaps, marks, ao, now, excused, base, dbase, loading, grace>>
+  /\ UNCHANGED <<sc, packs, idx, snaps, marks, ao, now, excused, base, dbase, loading, grace, must>>
 
 Tick ==
   /\ Ev.e = "tick"
   /\ now' = Ev.now
   /\ viol' = {}
-  /\ UNCHANGED <<sc, packs, idx, snaps, marks, cmds, ao, excused, base, dbase, loading, grace>>
+  /\ UNCHANGED <<sc, packs, idx, snaps, marks, cmds, ao, excused, base, dbase, loading, grace, must>>
 
 Cfg ==
   /\ Ev.e = "cfg"
   /\ ao' = Ev.append_only
   /\ viol' = {}
-  /\ UNCHANGED <<sc, packs, idx, snaps, marks, cmds, now, excused, base, dbase, loading, grace>>
+  /\ UNCHANGED <<sc, packs, idx, snaps, marks, cmds, now, excused, base, dbase, loading, grace, must>>
 
 \* the real read path (check --read-data, ls + dump of every snapshot) run on this very state
 Probe ==
@@ -204,9 +210,9 @@ Probe ==
              \cup {<<"DriftReadableButAbstractSaysNo", s>> :
                  s \in {x \in DOMAIN Ev.rest \cap DOMAIN snaps : ~P!Readable(x) /\ Ev.rest[x] = "ok"}}
              \cup (IF Ev.check # "clean" /\ grace = {} THEN {<<"CheckNotClean", Ev.check>>} ELSE {})
-  /\ UNCHANGED <<sc, packs, idx, snaps, marks, cmds, ao, now, excused, base, dbase, loading, grace>>
+  /\ UNCHANGED <<sc, packs, idx, snaps, marks, cmds, ao, now, excused, base, dbase, loading, grace, must>>
 
-Next == Consume /\ (End \/ Probe \/ (lastEnd' = <<>> /\ (Reset \/ Begin \/ Baseline \/ Damage \/ WPack \/ WIdx \/ WSnap \/ WOther \/ Rm \/ Fail \/ Tick \/ Cfg)))
+Next == Consume /\ (End \/ Probe \/ (lastEnd' = <<>> /\ (Reset \/ Begin \/ Remember \/ Baseline \/ Damage \/ WPack \/ WIdx \/ WSnap \/ WOther \/ Rm \/ Fail \/ Tick \/ Cfg)))
 Spec == Init /\ [][Next]_vars
 
 Running == {cmds[p].cmd : p \in DOMAIN cmds}
@@ -217,6 +223,7 @@ StateOK == loading \/
   /\ (P!Unreadable \ base) \ grace = {} \/ PrintT(<<"NONCONF", l, sc, "state", {<<"Unreadable", (P!Unreadable \ base) \ grace, excused, Running>>}>>)
   /\ P!Unrecoverable = {} \/ PrintT(<<"NONCONF", l, sc, "state", {<<"Unrecoverable", P!Unrecoverable, excused, Running>>}>>)
   /\ P!Dangling \ dbase = {} \/ PrintT(<<"NONCONF", l, sc, "state", {<<"Dangling", {e.p : e \in P!Dangling \ dbase}, excused, Running>>}>>)
+  /\ (lastEnd # <<"repair_index", "ok">> \/ must \cap P!Unreadable = {}) \/ PrintT(<<"NONCONF", l, sc, "state", {<<"Rebuild", must \cap P!Unreadable, excused, Running>>}>>)
   /\ (lastEnd # <<"prune", "ok">> \/ P!NotBroughtBack = {}) \/ PrintT(<<"NONCONF", l, sc, "state", {<<"NotBroughtBack", P!NotBroughtBack, excused, Running>>}>>)
 
 AllConsumed == l = Len(Rec) \/ TRUE
